@@ -80,6 +80,16 @@ def main():
                 detect = json.load(open(df))
             except Exception:
                 pass
+        # final run of the property's own check with the committed machinery, on /repo itself
+        final = {}
+        ff = "/tmp/detect/final/%s.json" % key
+        if os.path.exists(ff):
+            try:
+                final = json.load(open(ff))
+            except Exception:
+                pass
+        for p_, r_ in final.items():
+            detect[p_] = r_
         caught = sorted(p for p, r in detect.items() if r.get("exit") == 1)
         meta = dict(
             id=sid,
@@ -93,7 +103,8 @@ def main():
                 result=verify,
             ),
             detection=dict(
-                how="patch applied to a copy of /repo, every property's quick check run (lib/seedtest.py detect), patch undone",
+                how="own property: `git -C /repo apply patch.diff`, `./check %s --tier quick`, `git -C /repo checkout -- .` (lib/seedtest.py detect) with the committed machinery; other properties: the same procedure on an isolated copy of /repo + /verif during the bulk run (an earlier revision of the machinery; the Miri-heavy checks C02/C14/C15/C16 were only run for their own changes)" % prop,
+                own_check_final=final.get(prop),
                 caught_by=caught,
                 per_check={p: dict(exit=r.get("exit"), rules=r.get("rules"), wall_s=r.get("wall")) for p, r in sorted(detect.items())},
             ),
